@@ -14,6 +14,7 @@ import re
 import time
 
 from srctools import bsp as B
+from srctools.math import Vec
 
 from mcv import core
 from checks import bspgen as G
@@ -104,10 +105,54 @@ def state_key(bsp) -> tuple[str, list]:
     return G.digest([parsed, h.hexdigest(), obs, bsp.static_prop_version.name, bsp.out_comma_sep]), parsed
 
 
+def _acc_packfile(bsp):
+    with bsp.packfile() as z:
+        return z.namelist()
+
+
+def _acc_vis_helpers(bsp):
+    out = [bsp.is_cordoned_heuristic()]
+    leafs = list(bsp.visleafs)
+    for a in leafs[:3]:
+        for b_ in leafs[:3]:
+            out.append(bsp.is_potentially_visible(a, b_))
+    if list(bsp.nodes):
+        root = bsp.vis_tree()
+        out.append(len(list(root.iter_leafs())))
+        out.append(root.test_point(Vec(1.0, 2.0, 3.0)) is not None)
+    return out
+
+
+def _quiet_deprecated(fn):
+    def run(bsp):
+        import warnings
+        with warnings.catch_warnings():
+            warnings.simplefilter('ignore', DeprecationWarning)
+            return fn(bsp)
+    return run
+
+
+# read-only accessors that are not lazily parsed views (looking at a lump through them must change nothing either)
+ACCESSORS = {
+    'acc_get_lumps': lambda bsp: [len(bsp.get_lump(lmp)) for lmp in B.BSP_LUMPS],
+    'acc_game_lumps': lambda bsp: [len(bsp.get_game_lump(gid)) for gid in list(bsp.game_lumps)],
+    'acc_texture_names': lambda bsp: list(bsp.read_texture_names()),
+    'acc_read_ent_data': _quiet_deprecated(lambda bsp: len(bsp.read_ent_data().entities)),
+    'acc_static_prop_models': lambda bsp: list(bsp.static_prop_models()),
+    'acc_static_props': _quiet_deprecated(lambda bsp: len(list(bsp.static_props()))),
+    'acc_packfile': _acc_packfile,
+    'acc_vis_helpers': _acc_vis_helpers,
+    'acc_noop_deprecated': _quiet_deprecated(lambda bsp: (bsp.read_header(), bsp.read_game_lumps())),
+}
+
+
 def replay_history(spec, history) -> B.BSP:
     bsp = B.BSP(input_path(spec))
     for view in history:
-        getattr(bsp, view)
+        if view in ACCESSORS:
+            ACCESSORS[view](bsp)
+        else:
+            getattr(bsp, view)
     return bsp
 
 
@@ -443,6 +488,12 @@ def shard(spec) -> core.Acc:
     elif kind == 'pre':
         check_reader_vs_encoder(acc, spec[1])
         check_explicit_version(acc, spec[1])
+        if tuple(spec[1])[2] != 'all':       # (each save of a fully compressed input costs ~45 LZMA set-ups)
+            for name in ACCESSORS:
+                check_state(acc, spec[1], [name])
+                acc.count('traces_accessor')
+            check_state(acc, spec[1], list(ACCESSORS))
+            check_state(acc, spec[1], ['acc_static_props', 'props', 'acc_read_ent_data', 'ents', 'acc_packfile', 'pakfile'])
     elif kind == 'unreadable':
         check_unreadable_view(acc, spec[1], spec[2])
     return acc
@@ -596,7 +647,11 @@ def run(ctx: core.Ctx) -> None:
     ctx.rule = (
         'inputs: tests/test_vec/rot_main.bsp with the entity lump cut to 40 entities + independently encoded, fully '
         'populated BSPs for 7 layouts (v19, v20, v21, L4D2 header order, INFRA v22, Chaos v25, VitaminSource v43) x '
-        '{no, one (LEAFS), all} lumps LZMA-compressed x {raw, LZMA} game lumps. States: BFS over histories of '
+        '{no, one (LEAFS), all} lumps LZMA-compressed x {raw, LZMA} game lumps. Besides the views, every input is opened with its own '
+        'version given as the constructor argument, and (not the fully compressed ones) each read-only accessor that is not a lazily '
+        'parsed view - get_lump, get_game_lump, read_texture_names, read_ent_data, static_prop_models, static_props, packfile() without '
+        'edits, is_potentially_visible / vis_tree / is_cordoned_heuristic - is used alone, all together and mixed with the matching view, '
+        'followed by the full save / re-read oracle. States: BFS over histories of '
         'reads of the 21 ParsedLump views, deduplicated by (parsed key set, digest of raw payloads, digest of parsed '
         'content); ' + ('quick: histories of <= 3 reads for the sample and the 7 uncompressed files; <= 1 read for the 21 '
                         'files with LZMA game lumps and/or one LZMA lump; fully compressed files for the layouts v20 and l4d2 '
